@@ -10,6 +10,7 @@ import (
 	"verif/harness/ast"
 	"verif/harness/ev"
 	"verif/harness/gen"
+	"verif/harness/jsonx"
 	"verif/harness/ref"
 	"verif/harness/run"
 
@@ -23,7 +24,12 @@ type C06Case struct {
 	Expr *ast.Node `json:"expr"`
 	Red  *ast.Node `json:"red,omitempty"` // the same tree with redundant parentheses
 	Tag  string    `json:"tag,omitempty"`
+	Ctx  string    `json:"ctx,omitempty"` // syntactic position of the expression ("" = right side of an assignment)
 }
+
+// the positions an expression can be written in; the grammar must read it the
+// same way in each of them
+var c06Contexts = []string{"", "", "print", "print-second", "condition", "argument", "element", "index", "return", "pattern", "forin", "object-value", "while-condition"}
 
 var c06Env = &gen.Env{
 	Nums: []string{"n1", "n2", "n3", "n4"}, Strs: []string{"s1", "s2"}, Bools: []string{"b1"},
@@ -31,23 +37,64 @@ var c06Env = &gen.Env{
 	Funs: []gen.Fun{{Name: "inc", Arity: 1}, {Name: "add", Arity: 2}},
 }
 
-func c06Program(e *ast.Node) *ast.Node {
+func c06Program(e *ast.Node) *ast.Node { return c06ProgramCtx(e, "") }
+
+func c06ProgramCtx(e *ast.Node, ctx string) *ast.Node {
 	set := func(n string, v *ast.Node) *ast.Node { return ast.ExprS(ast.Set(ast.Id(n), v)) }
+	var use []*ast.Node
+	var extraItems []*ast.Node
+	switch ctx {
+	case "print":
+		use = []*ast.Node{ast.Print(e), set("r", ast.Num("0"))}
+	case "print-second":
+		use = []*ast.Node{ast.Print(ast.Str("p"), e, ast.Str("q")), set("r", ast.Num("0"))}
+	case "condition":
+		use = []*ast.Node{ast.IfElse(e, ast.Block(set("r", ast.Str("T"))), ast.Block(set("r", ast.Str("F"))))}
+	case "argument":
+		use = []*ast.Node{set("r", ast.Call(ast.Id("add"), ast.Str("<"), e))}
+	case "element":
+		use = []*ast.Node{set("r", ast.Idx(ast.Arr(ast.Num("0"), e, ast.Num("0")), ast.Num("1")))}
+	case "index":
+		use = []*ast.Node{set("r", ast.Idx(ast.Arr(ast.Str("i0"), ast.Str("i1"), ast.Str("i2"), ast.Str("i3")), e))}
+	case "return":
+		extraItems = append(extraItems, ast.Func("retf", nil, ast.Block(ast.Return(e))))
+		use = []*ast.Node{set("r", ast.Call(ast.Id("retf")))}
+	case "pattern":
+		use = []*ast.Node{set("r", ast.Str("set in END"))}
+	case "forin":
+		use = []*ast.Node{set("r", ast.Num("0")), ast.ForIn("q", "", ast.Arr(e), ast.Block(set("r", ast.Id("q"))))}
+	case "object-value":
+		use = []*ast.Node{set("r", ast.Mem(ast.Paren(ast.Obj(ast.KV("a", ast.Num("1")), ast.KV("v", e), ast.KV("z", ast.Num("2")))), "v"))}
+	case "while-condition":
+		use = []*ast.Node{set("r", ast.Str("F")), set("wc", ast.Num("0")), ast.While(ast.Bin("&&", ast.Bin("<", ast.Post("++", ast.Id("wc")), ast.Num("1")), ast.Paren(e)), ast.Block(set("r", ast.Str("T"))))}
+	default:
+		use = []*ast.Node{ast.ExprS(ast.Set(ast.Id("r"), e))}
+	}
 	stmts := []*ast.Node{
 		set("n1", ast.Num("7")), set("n2", ast.Num("3")), set("n3", ast.Num("2")), set("n4", ast.Num("5")),
 		set("s1", ast.Str("ab")), set("s2", ast.Str("b")), set("b1", ast.True()),
 		set("a1", ast.Arr(ast.Num("3"), ast.Num("1"), ast.Num("2"))),
 		set("o1", ast.Obj(ast.KV("k", ast.Num("4")), ast.KV("n", ast.Num("10")))),
 		set("x", ast.Num("0")), set("y", ast.Num("0")), set("z", ast.Num("0")),
-		ast.ExprS(ast.Set(ast.Id("r"), e)),
 	}
-	stmts = append(stmts, c05Observe()...)
-	stmts = append(stmts, ast.Print(ast.Id("x"), ast.Id("y"), ast.Id("z")))
-	return ast.Prog(
+	items := []*ast.Node{
 		ast.Func("inc", []string{"p"}, ast.Block(ast.Return(ast.Bin("+", ast.Id("p"), ast.Num("1"))))),
 		ast.Func("add", []string{"p", "q"}, ast.Block(ast.Return(ast.Bin("+", ast.Id("p"), ast.Id("q"))))),
-		ast.Rule("BEGIN", nil, ast.Block(stmts...)),
-	)
+	}
+	items = append(items, extraItems...)
+	tail := append(c05Observe(), ast.Print(ast.Id("x"), ast.Id("y"), ast.Id("z")))
+	if ctx == "pattern" {
+		// the expression is the pattern of an END-side rule: BEGIN sets the variables, a
+		// pattern rule with the expression as its pattern runs on the one input value
+		items = append(items, ast.Rule("BEGIN", nil, ast.Block(stmts...)),
+			ast.Rule("pattern", e, ast.Block(ast.Print(ast.Str("pattern matched")))),
+			ast.Rule("END", nil, ast.Block(append(use, tail...)...)))
+		return ast.Prog(items...)
+	}
+	stmts = append(stmts, use...)
+	stmts = append(stmts, tail...)
+	items = append(items, ast.Rule("BEGIN", nil, ast.Block(stmts...)))
+	return ast.Prog(items...)
 }
 
 type c06Verdict struct {
@@ -62,27 +109,35 @@ func sameOutcome(a, b run.Outcome) bool {
 }
 
 func c06Check(c *C06Case) c06Verdict {
-	prog := c06Program(c.Expr)
+	prog := c06ProgramCtx(c.Expr, c.Ctx)
+	var files []run.InFile
+	if c.Ctx == "pattern" {
+		files = []run.InFile{{Name: "in", Data: []byte("7")}}
+	}
 	minSrc := ast.SourceMin(prog)
 	fullSrc := ast.Source(prog)
 	v := c06Verdict{Src: minSrc}
-	iMin := run.InProc(minSrc, nil, nil, run.Opts{Budget: implBudget})
-	iFull := run.InProc(fullSrc, nil, nil, run.Opts{Budget: implBudget})
+	iMin := run.InProc(minSrc, files, nil, run.Opts{Budget: implBudget})
+	iFull := run.InProc(fullSrc, files, nil, run.Opts{Budget: implBudget})
 	if !sameOutcome(iMin, iFull) {
 		v.Fail = fmt.Sprintf("minimal and fully parenthesised renderings behave differently\n minimal: %s\n  -> %s %q\n full:    %s\n  -> %s %q",
 			exprLine(minSrc), iMin.Class, clip(string(iMin.Stdout)), exprLine(fullSrc), iFull.Class, clip(string(iFull.Stdout)))
 		return v
 	}
 	if c.Red != nil {
-		redSrc := ast.SourceMin(c06Program(c.Red))
-		iRed := run.InProc(redSrc, nil, nil, run.Opts{Budget: implBudget})
+		redSrc := ast.SourceMin(c06ProgramCtx(c.Red, c.Ctx))
+		iRed := run.InProc(redSrc, files, nil, run.Opts{Budget: implBudget})
 		if !sameOutcome(iRed, iFull) {
 			v.Fail = fmt.Sprintf("redundant parentheses change the behaviour\n redundant: %s\n  -> %s %q\n full:      %s\n  -> %s %q",
 				exprLine(redSrc), iRed.Class, clip(string(iRed.Stdout)), exprLine(fullSrc), iFull.Class, clip(string(iFull.Stdout)))
 			return v
 		}
 	}
-	rr := ref.Run(ref.Config{Prog: prog, Hint: iFull.Stdout, Excl: excl})
+	var rfiles []ref.File
+	if c.Ctx == "pattern" {
+		rfiles = []ref.File{{Name: "in", Values: []*jsonx.Val{jsonx.VNum(7)}}}
+	}
+	rr := ref.Run(ref.Config{Prog: prog, Files: rfiles, Hint: iFull.Stdout, Excl: excl})
 	switch rr.Class {
 	case "unspecified", "known":
 		v.Discard = rr.Reason
@@ -99,11 +154,11 @@ func c06Check(c *C06Case) c06Verdict {
 // exprLine extracts the "r = ..." line of a rendered C06 program.
 func exprLine(src string) string {
 	for _, l := range strings.Split(src, "\n") {
-		if strings.HasPrefix(l, "r = ") {
+		if strings.HasPrefix(l, "r = ") && !strings.HasPrefix(l, "r = 0") && !strings.HasPrefix(l, "r = \"") {
 			return l
 		}
 	}
-	return src
+	return "\n" + src
 }
 
 // shapes enumerates every binary tree over leaves[0..n] with ops[0..n-1] in order.
@@ -135,7 +190,7 @@ func c06RefValue(e *ast.Node) string {
 
 func TestC06(t *testing.T) {
 	rec := start(t, "C06", "exploration",
-		"exhaustive: every ordered pair and triple of the 15 binary operators (levels 2-5 of table 3.9) over two operand sets, in every tree shape (2 resp. 5); every prefix operator against every binary operator and against member/index/call; `is`; assignment chains. Random: expression trees to depth 6 (8 thorough). Each intended tree T is rendered with minimal, full and redundant parentheses; all renderings must behave alike and equal refjq(T). Non-trivial = discriminating: some other grouping of the same token sequence evaluates differently in refjq. distinct = distinct minimal rendering.")
+		"exhaustive: every ordered pair and triple of the 15 binary operators (levels 2-5 of table 3.9) over two operand sets, in every tree shape (2 resp. 5); every prefix operator against every binary operator and against member/index/call; `is`; assignment chains. Every pair also in every syntactic position (print argument, condition, call argument, array element, index, return value, rule pattern, for-in iterable, object value, while condition). Random: expression trees to depth 6 (8 thorough), each in a random position. Each intended tree T is rendered with minimal, full and redundant parentheses; all renderings must behave alike and equal refjq(T). Non-trivial = discriminating: some other grouping of the same token sequence evaluates differently in refjq. distinct = distinct minimal rendering.")
 	defer rec.Finish()
 	rec.Assume("refjq evaluates the harness AST, i.e. the intended tree, independently of jqawk's parser")
 	rec.Replayer("grouping", func(raw json.RawMessage) error {
@@ -196,6 +251,12 @@ func TestC06(t *testing.T) {
 				disc := len(vals) >= 2
 				for _, tr := range trees {
 					runCase(&C06Case{Expr: tr, Tag: fmt.Sprintf("ops %v set %d", ops, si)}, disc, fmt.Sprintf("arity-%d", n))
+					if n == 2 && si == 0 {
+						// every operator pair also in every other syntactic position
+						for _, ctx := range c06Contexts[2:] {
+							runCase(&C06Case{Expr: tr, Ctx: ctx, Tag: fmt.Sprintf("ops %v in %s", ops, ctx)}, disc, "arity-2-in-context", "context:"+ctx)
+						}
+					}
 				}
 			}
 		}
@@ -265,13 +326,13 @@ func TestC06(t *testing.T) {
 	check(rec, "grouping-random", scale(10000, 2000000), func(rt *rapid.T) {
 		want := rapid.SampledFrom([]string{"num", "num", "bool", "str", "any"}).Draw(rt, "want")
 		e := gen.Expr(c06Env, depth, want).Draw(rt, "expr")
-		c := &C06Case{Expr: e, Red: gen.Redundant(e).Draw(rt, "red"), Tag: "random"}
+		c := &C06Case{Expr: e, Red: gen.Redundant(e).Draw(rt, "red"), Tag: "random", Ctx: rapid.SampledFrom(c06Contexts).Draw(rt, "ctx")}
 		v := c06Check(c)
 		if v.Discard != "" {
 			rec.Discard(v.Discard)
 		}
 		disc := c06Discriminating(e)
-		rec.Case(v.Src, disc, "random")
+		rec.Case(v.Src, disc, "random", "context:"+c.Ctx)
 		rec.Sample(func() interface{} {
 			return map[string]interface{}{"minimal": exprLine(v.Src), "redundant": exprLine(ast.SourceMin(c06Program(c.Red))), "expected": v.RefOut}
 		})
